@@ -823,6 +823,19 @@ func (w *Wallet) recovery(chainClient chain.Interface,
 				return nil
 			})
 			if err != nil {
+				// The transaction was rolled back, but the
+				// addresses found so far within this batch have
+				// already been reflected in the in-memory state
+				// of the accounts we recover. Drop that state
+				// so the next attempt starts from what is on
+				// disk, otherwise these addresses would never
+				// be persisted and their funds never credited.
+				for _, scopedMgr := range scopedMgrs {
+					scopedMgr.InvalidateAccountCache(
+						waddrmgr.DefaultAccountNum,
+					)
+				}
+
 				return err
 			}
 
